@@ -1189,6 +1189,44 @@ impl<'a> Oracle<'a> {
 
 /// read -> build (compared with the independent interpreter: C02) -> walk -> write -> read -> build (isomorphic under
 /// the depth-first order: C01; the arrival bond moved to the front and nothing else: C12) -> walk -> write (same text: C14)
+/// a follower that only watches ring numbers (C13 at size): an opening join must carry the smallest number from 1
+/// upward that is not open, a number is free again as soon as it is closed; head atoms (in traversal order) are kept
+/// so that the two ends of every number can be compared with the graph afterwards
+pub struct RingWatch {
+    t: Tables,
+    open: std::collections::BTreeMap<usize, usize>, // number -> head (traversal index) that opened it
+    path: Vec<usize>,
+    atoms: usize,
+    pub pairs: Vec<(usize, usize)>,
+    pub problem: Option<String>,
+    pub max_open: usize,
+}
+
+impl RingWatch {
+    pub fn new() -> Self { RingWatch { t: Tables::new(), open: Default::default(), path: Vec::new(), atoms: 0, pairs: Vec::new(), problem: None, max_open: 0 } }
+}
+
+impl purr::walk::Follower for RingWatch {
+    fn root(&mut self, _k: AtomKind) { self.path.push(self.atoms); self.atoms += 1 }
+    fn extend(&mut self, _b: BondKind, _k: AtomKind) { self.path.push(self.atoms); self.atoms += 1 }
+    fn pop(&mut self, depth: usize) { for _ in 0..depth { self.path.pop(); } }
+    fn join(&mut self, _b: BondKind, rnum: Rnum) {
+        let n: usize = rnum_s(&self.t, &rnum).parse().unwrap_or(usize::MAX);
+        let head = self.path.last().copied().unwrap_or(usize::MAX);
+        if let Some(h0) = self.open.remove(&n) {
+            self.pairs.push((h0, head));
+        } else {
+            let mut least = 1;
+            while self.open.contains_key(&least) { least += 1 }
+            if n != least && self.problem.is_none() {
+                self.problem = Some(format!("ring closure on traversal atom {} is opened with number {} while {} is the smallest number not open ({} open)", head, n, least, self.open.len()));
+            }
+            self.open.insert(n, head);
+            self.max_open = self.max_open.max(self.open.len());
+        }
+    }
+}
+
 pub fn soak_check(s: &str) -> Result<usize, String> {
     let t = Tables::new();
     let orc = Oracle::new(&t, "C01");
@@ -1216,8 +1254,19 @@ pub fn soak_check(s: &str) -> Result<usize, String> {
             return Err("the string builds but the independent interpreter finds an unmatched / irreconcilable / duplicate ring closure".to_string())
         }
     }
-    // C01 at this size
+    // C13 at this size: ring numbers along the traversal, and the two ends of every number against the graph
     let (order, _) = dfs_order(&g);
+    {
+        let mut watch = RingWatch::new();
+        purr::walk::walk(build(s, "third read")?, &mut watch).map_err(|e| format!("walk: {:?}", e))?;
+        if let Some(p) = watch.problem { return Err(p) }
+        for (h0, h1) in watch.pairs.iter() {
+            if *h0 >= order.len() || *h1 >= order.len() { return Err(format!("a ring number joins traversal atoms {} and {} of {}", h0, h1, order.len())) }
+            let (x, y) = (order[*h0], order[*h1]);
+            if !g[x].bonds.iter().any(|b| b.tid == y) { return Err(format!("a ring number is written on atoms {} and {}, which are not bonded", x, y)) }
+        }
+    }
+    // C01 at this size
     let mut pi = vec![0usize; g.len()];
     for (i, a) in order.iter().enumerate() { pi[*a] = i }
     let rt = orc.round_trip(build(s, "second read")?)?;
